@@ -300,19 +300,52 @@ class _LazyToken:
         self.sim_index = sim_index
 
 
-def _np_tensor(payload: bytes, dtype: str, shape, name: str):
+LAYOUTS = ("c", "f", "strided", "reversed", "transposed")
+
+
+def relayout(arr: np.ndarray, layout: str | None) -> np.ndarray:
+    """The same logical array in another memory layout (its C-order bytes stay what the payload says)."""
+    if not layout or layout == "c" or arr.ndim == 0 or arr.size == 0:
+        return arr
+    if layout == "f":
+        return np.asfortranarray(arr)
+    if layout == "strided":
+        wide = np.zeros(arr.shape[:-1] + (arr.shape[-1] * 2,), dtype=arr.dtype)
+        wide[..., 1::2] = 0x5A if arr.dtype.kind in "ui" else 1
+        wide[..., ::2] = arr
+        return wide[..., ::2]
+    if layout == "reversed":
+        return np.ascontiguousarray(arr[::-1])[::-1]
+    if layout == "transposed":
+        return np.ascontiguousarray(arr.T).T
+    raise ValueError(layout)
+
+
+def assign_layouts(specs: list[dict], rng: random.Random, p: float = 0.35) -> None:
+    """Give numpy-backed tensor specs a memory layout (drawn from a stream of its own)."""
+    for spec in specs:
+        if "same_as" in spec:
+            continue
+        if spec.get("kind") == "np" or (spec.get("kind") == "lazy" and spec.get("inner", "np") == "np"):
+            x = rng.random()
+            lay = rng.choice(LAYOUTS[1:])
+            if x < p and spec.get("dtype") not in SUBBYTE:
+                spec["layout"] = lay
+
+
+def _np_tensor(payload: bytes, dtype: str, shape, name: str, layout: str | None = None):
     d = dt(dtype)
     if dtype in _NP_FOR:
         arr = np.frombuffer(payload, dtype=np.dtype(_NP_FOR[dtype]).newbyteorder("<")).reshape(shape)
-        return ir.Tensor(arr, dtype=d, name=name)
+        return ir.Tensor(relayout(arr, layout), dtype=d, name=name)
     if dtype in SUBBYTE:
         return ir.PackedTensor(np.frombuffer(payload, dtype=np.uint8), d, shape=shape, name=name)
     if dtype == "BFLOAT16":
         arr = np.frombuffer(payload, dtype="<u2").reshape(shape)
-        return ir.Tensor(arr, dtype=d, name=name)
+        return ir.Tensor(relayout(arr, layout), dtype=d, name=name)
     # 8-bit floats: uint8 carrier
     arr = np.frombuffer(payload, dtype=np.uint8).reshape(shape)
-    return ir.Tensor(arr, dtype=d, name=name)
+    return ir.Tensor(relayout(arr, layout), dtype=d, name=name)
 
 
 def _proto_tensor(payload: bytes, dtype: str, shape, name: str):
@@ -340,7 +373,7 @@ def build_tensor(spec: dict, idx: int, run_seed: int, acct: Accounting, ext_file
         items = [payload[STRING_ITEM * i : STRING_ITEM * (i + 1)] for i in range(n)]
         t = ir.StringTensor(np.array(items, dtype=object).reshape(shape), name=name)
     elif kind == "np":
-        t = _np_tensor(payload, dtype, shape, name)
+        t = _np_tensor(payload, dtype, shape, name, spec.get("layout"))
     elif kind == "proto":
         t = _proto_tensor(payload, dtype, shape, name)
     elif kind == "lazy":
@@ -363,7 +396,7 @@ def build_tensor(spec: dict, idx: int, run_seed: int, acct: Accounting, ext_file
                     if fail.get("once"):
                         fail["spent"] = True
                     raise EXC_TYPES[fail.get("exc", "RuntimeError")](f"injected failure in lazy tensor #{idx}")
-                result = _proto_tensor(payload, dtype, shape, name) if _k == "proto" else _np_tensor(payload, dtype, shape, name)
+                result = _proto_tensor(payload, dtype, shape, name) if _k == "proto" else _np_tensor(payload, dtype, shape, name, spec.get("layout"))
             except BaseException:
                 acct.exit(token, len(payload))
                 raise
